@@ -79,7 +79,10 @@ func init() {
 	"context.WithCancel":      extNoop,
 	"context.Background":      extNoop,
 	"(*strings.Builder).WriteString": extNoop,
-	"(*strings.Builder).String":      extNoop,
+	"(*strings.Builder).String":      extBuilderString,
+	"(*strings.Builder).Write":       extBuilderWrite,
+	"crypto/sha256.Sum256":           extSha256Sum,
+	"crypto/sha256.New":              extNonNil,
 	"strconv.Itoa":                   extNoop,
 	"(*math/rand.Rand).Shuffle":      nil, // needs a dedicated model; absent = unsupported
 }
@@ -105,7 +108,7 @@ func findExtern(name string, fn *ssa.Function) externFn {
 var pureExternPrefixes = []string{
 	"fmt.Sprint", "fmt.Print", "fmt.Fprint", "strings.", "strconv.", "(*encoding/base64.Encoding).EncodeToString",
 	"encoding/hex.EncodeToString", "time.", "(time.Time).", "(time.Duration).", "(*time.Timer).", "unicode.", "unicode/utf8.",
-	"(*strings.Builder).", "math.", "errors.Is", "errors.As", "errors.Unwrap", "os.Getenv", "runtime.", "(*sync.Once).",
+	"(*strings.Builder).", "(*container/list.List).", "(*container/list.Element).", "math.", "errors.Is", "errors.As", "errors.Unwrap", "os.Getenv", "runtime.", "(*sync.Once).",
 	"context.With", "context.Background", "context.TODO", "bytes.Equal", "bytes.Compare", "crypto/sha256.Sum256", "crypto/sha512.", "(*google.golang.org/protobuf/types/known/timestamppb.Timestamp).", "google.golang.org/protobuf/types/known/timestamppb.", "(*sync/atomic.", "sync/atomic.",
 }
 
